@@ -230,4 +230,6 @@ def check(ctx, R):
     R.run("C16.b", rule_b, ctx)
     R.run("C16.c", rule_c, ctx)
     R.run("C16.d", rule_d, ctx)
+    from . import preds
+    R.run("C16.p", lambda R, c: preds.rule(R, c, "C16.p", ["idmap_contains", "blockrange_contains"]), ctx)
     return {}
